@@ -97,8 +97,8 @@ func init() {
 // c03Scenarios: authorisation follows the registry also when the writer's unbind (or bind) is
 // processed while another peer is torn down: afterwards the write is judged as after a sequential execution.
 func c03Scenarios() []*engine.SScenario {
-	return []*engine.SScenario{
+	return append(pairMatrix("C03", false), []*engine.SScenario{
 		teardownScenario("disc:A", []string{"unbind:B:e1f1:L2lc:d"}, []string{"write:B:e1f1:L2lc:limit:ack:2", "write:B:e1f1:L2lc:limit:noack:1"}),
 		teardownScenario("entrm:A:1", []string{"unbind:B:e1f1:L2lc:d", "bind:B:e1f2:L2lc:lc:d"}, []string{"write:B:e1f1:L2lc:limit:ack:2", "write:B:e1f2:L2lc:limit:ack:2"}),
-	}
+	}...)
 }
